@@ -18,6 +18,7 @@ structure St where
   size : Int := 0
   pages : Array Page := #[]
   hdrs : List (Int × ByteArray) := []       -- (offset of the stream's BOS page, packet) in order
+  stalls : List Int := []
   ph : Phys := { size := 0, pages := #[], infos := [] }
   slots : Array Slot := #[{}, {}, {}, {}]
 
@@ -106,7 +107,8 @@ def infoLink (vf : VF) (i : Int) : Option LinkInfo :=
 def step (s : St) (toks : List String) : St × List String :=
   match toks with
   | "case" :: id :: _ => ({}, ["== case " ++ id])
-  | ["phys", n] => ({ s with size := n.toInt?.getD 0, pages := #[], hdrs := [] }, [])
+  | ["phys", n] => ({ s with size := n.toInt?.getD 0, pages := #[], hdrs := [], stalls := [] }, [])
+  | ["stalls", l] => ({ s with stalls := (l.splitOn ",").filterMap (·.toInt?) }, [])
   | "pg" :: rest => ({ s with pages := s.pages.push (parsePage rest) }, [])
   | ["hdrpk", _, _, bos, h] =>
       match fromHex h with
@@ -114,7 +116,7 @@ def step (s : St) (toks : List String) : St × List String :=
       | none => (s, ["bad-hex"])
   | ["build"] =>
       let (infos, bad) := buildInfos s.hdrs
-      ({ s with ph := { size := s.size, pages := s.pages, infos := infos, badhdr := bad } }, [s!"build pages={s.pages.size} links={infos.length} bad={bad.length}"])
+      ({ s with ph := { size := s.size, pages := s.pages, infos := infos, badhdr := bad, stalls := s.stalls } }, [s!"build pages={s.pages.size} links={infos.length} bad={bad.length}"])
   | op :: slot :: args =>
       let k := (slot.toNat?.getD 0) % 4
       let sl := s.slots[k]!
@@ -147,7 +149,11 @@ def step (s : St) (toks : List String) : St × List String :=
           put { sl with vf := vf1 } [fmt rc vf1]
         match op with
         | "tell" => put sl [s!"tell {pcmTell vf}"]
-        | "rawtell" => put sl [s!"rawtell {rawTell vf}"]
+        | "rawtell" =>
+            -- in the last 26 bytes of the file the hunt for a page stops wherever fewer than 27 bytes were buffered when
+            -- `ogg_sync_pageseek` was asked: that depends on how the read callback delivered the bytes, which the model does not know
+            let v := rawTell vf
+            put sl [if v > ph.size - 27 ∧ vf.ready ≥ OPENED then s!"rawtell {v} tail={ph.size - 26}" else s!"rawtell {v}"]
         | "timetell" => put sl [s!"timetell {nano (timeTell vf)}"]
         | "total" => put sl [s!"total {pcmTotal vf (arg 0)}"]
         | "rawtotal" => put sl [s!"rawtotal {rawTotal vf (arg 0)}"]
